@@ -23,3 +23,4 @@ def run(repo, res, tier):
     from .. import hookrules as _hk
     _hk.rule_reindex(repo, res)
     _hk.rule_v5(repo, res)
+    multidict.rule_none_sentinel(repo, res)
